@@ -15,6 +15,10 @@ def plan(tier):
 
 
 def run_case(acc, rnd, tier, case):
+    if case % 40 == 7:
+        # which of two equal-looking pending events (one internal, one external) a step is about
+        from .c05 import equal_events_case
+        return equal_events_case(acc, rnd, PID)
     modes = META[PID]['modes']
     mode, _, kw = rnd.choices(modes, weights=[m[1] for m in modes])[0]
     acc.count('mode_' + mode)
